@@ -148,6 +148,10 @@ def bnf(t):
         return (not x) if isinstance(x, bool) else ("not", x)
     if t[0] == "call":
         return ("call", t[1].split("::")[-1], t[2])
+    if t[0] == "matches":
+        d = sym.decide_bool(t)      # `matches!(<literal constructor>, patterns)` is decided by the constructor
+        if d is not None:
+            return d
     return ("?", t)
 
 
@@ -698,11 +702,11 @@ def rule_mu(ctx):
     ps = pushes(dict(v[2])["formulas"]) if ok else []
     want = {("Option::Some(_)", ("proj", NR, (("Option::Some", "0"),))),
             ("Option::None", ("call", "tau_star::tau_star_rule", (R, ("call", "tau_star::choose_fresh_global_variables", (P("$self"),)))))}
-    got = {(c[-1][1], x) for c, x in ps}
-    heads = {c[-1][0] for c, x in ps}
+    got = {(c[-1][1] if c else None, x) for c, x in ps}
+    heads = {c[-1][0] if c else None for c, x in ps}
     ok_loop = got == want and heads == {("match", NR)}
     # the same as one expression: rules.map(|r| natural_rule(r).unwrap_or_else(|| tau_star_rule(r, &globals)))
-    cv = ftpl.canon_iter(v)
+    cv = ftpl.canon_closures(ftpl.canon_iter(v))
     el = ftpl._comp(dict(cv[2])["formulas"]) if ok and "formulas" in dict(cv[2]) else None
     RA = ("at", ("place", "$self.rules"))
     GL = ("call", "tau_star::choose_fresh_global_variables", (P("$self"),))
